@@ -133,6 +133,7 @@ package emitter
 
 //@ func RegFn
 //@   nobody
+//@   requires RegMap(self) != nil
 //@   modifies RegMap(self)
 //@   ensures [C04:reg] forall k int :: {indom(RegMap(self), k)} RegMap(self)[k] == (old(RegMap(self)[k]) || k == arg0)
 //@ end
@@ -158,15 +159,16 @@ package emitter
 //@ func (brancher) renderBranchConditions
 //@   nobody
 //@   fnparam registerJumpChunk implements RegFn
-//@   requires sb != nil && BrWF(self)
+//@   requires sb != nil && BrWF(self) && RegMap(registerJumpChunk) != nil
 //@   modifies sb.pieces, sb.nbytes, sb.markers, RegMap(registerJumpChunk)
 //@   ensures [C01,C05:ft-tail] result ==> TailOf(self) == nextChunkID
 //@   ensures [C05:no-goto-next] (TailOf(self) == nextChunkID && nextChunkID != -1) ==> result
 //@   ensures [C04:no-runoff] (nextChunkID == -1 && !SwitchNoDefaultRet(self)) ==> !result
 //@   ensures [C04:transfer] !result ==> (len(sb.pieces) > len(old(sb.pieces)) && IsTransfer(sb.pieces[len(sb.pieces) - 1]))
 //@   ensures [C04:ref-reg] forall k int :: {sb.pieces[k]} (len(old(sb.pieces)) <= k && k < len(sb.pieces) && RefOf(sb.pieces[k]) != -2) ==> RegMap(registerJumpChunk)[RefOf(sb.pieces[k])]
-//@   ensures [C04:reg-mono] forall k int :: {RegMap(registerJumpChunk)[k]} old(RegMap(registerJumpChunk)[k]) ==> RegMap(registerJumpChunk)[k]
+//@   ensures [C04:reg-mono] forall k int :: {indom(RegMap(registerJumpChunk), k)} old(RegMap(registerJumpChunk)[k]) ==> RegMap(registerJumpChunk)[k]
 //@   ensures [C04:prefix] len(sb.pieces) >= len(old(sb.pieces)) && (forall k int :: {sb.pieces[k]} (0 <= k && k < len(old(sb.pieces))) ==> sb.pieces[k] == old(sb.pieces)[k])
+//@   ensures [C04,C05:reg-only-dests] forall k int :: {indom(RegMap(registerJumpChunk), k)} RegMap(registerJumpChunk)[k] ==> (old(RegMap(registerJumpChunk)[k]) || (IsDest(self, k) && k != -1))
 //@ end
 
 //@ func (j *jump) renderBranchConditions
@@ -216,8 +218,9 @@ package emitter
 //@     invariant [C03:asm-inv] sb.pieces[len(old(sb.pieces))] == sprintf("\tswitch %s\n", s.operand.Literal)
 //@     invariant [C03:asm-inv] forall j int :: {sb.pieces[j]} (len(old(sb.pieces)) + 1 <= j && j < len(old(sb.pieces)) + 1 + $i) ==> sb.pieces[j] == CaseLine(s.cases[j - len(old(sb.pieces)) - 1], scriptName)
 //@     invariant [C04:prefix-inv] forall k int :: {sb.pieces[k]} (0 <= k && k < len(old(sb.pieces))) ==> sb.pieces[k] == old(sb.pieces)[k]
-//@     invariant [C04:reg-inv] forall x int :: {RegMap(registerJumpChunk)[x]} old(RegMap(registerJumpChunk)[x]) ==> RegMap(registerJumpChunk)[x]
+//@     invariant [C04:reg-inv] forall x int :: {indom(RegMap(registerJumpChunk), x)} old(RegMap(registerJumpChunk)[x]) ==> RegMap(registerJumpChunk)[x]
 //@     invariant [C04:reg-inv] forall k int :: {s.cases[k]} (0 <= k && k < $i) ==> RegMap(registerJumpChunk)[s.cases[k].destChunkID]
+//@     invariant [C04,C05:reg-only-inv] forall k int :: {indom(RegMap(registerJumpChunk), k)} RegMap(registerJumpChunk)[k] ==> (old(RegMap(registerJumpChunk)[k]) || (exists j int :: 0 <= j && j < $i && s.cases[j].destChunkID == k))
 //@ end
 
 // ---- chunks (C01, C04, C05, C10, C20) ----
@@ -226,15 +229,16 @@ package emitter
 
 //@ func (c *chunk) renderBranching
 //@   fnparam registerJumpChunk implements RegFn
-//@   requires sb != nil && (c.branchBehavior != nil ==> BrWF(c.branchBehavior))
+//@   requires sb != nil && (c.branchBehavior != nil ==> BrWF(c.branchBehavior)) && RegMap(registerJumpChunk) != nil
 //@   modifies sb.pieces, sb.nbytes, sb.markers, RegMap(registerJumpChunk)
 //@   ensures [C01,C05:ft-tail] result ==> ChunkTail(c) == nextChunkID
 //@   ensures [C05:no-goto-next] (ChunkTail(c) == nextChunkID && nextChunkID != -1) ==> result
 //@   ensures [C04:no-runoff] (nextChunkID == -1 && !(c.branchBehavior != nil && SwitchNoDefaultRet(c.branchBehavior))) ==> !result
 //@   ensures [C04:transfer] !result ==> (len(sb.pieces) > len(old(sb.pieces)) && IsTransfer(sb.pieces[len(sb.pieces) - 1]))
 //@   ensures [C04:ref-reg] forall k int :: {sb.pieces[k]} (len(old(sb.pieces)) <= k && k < len(sb.pieces) && RefOf(sb.pieces[k]) != -2) ==> RegMap(registerJumpChunk)[RefOf(sb.pieces[k])]
-//@   ensures [C04:reg-mono] forall k int :: {RegMap(registerJumpChunk)[k]} old(RegMap(registerJumpChunk)[k]) ==> RegMap(registerJumpChunk)[k]
+//@   ensures [C04:reg-mono] forall k int :: {indom(RegMap(registerJumpChunk), k)} old(RegMap(registerJumpChunk)[k]) ==> RegMap(registerJumpChunk)[k]
 //@   ensures [C04:prefix] len(sb.pieces) >= len(old(sb.pieces)) && (forall k int :: {sb.pieces[k]} (0 <= k && k < len(old(sb.pieces))) ==> sb.pieces[k] == old(sb.pieces)[k])
+//@   ensures [C04,C05:reg-only-dests] forall k int :: {indom(RegMap(registerJumpChunk), k)} RegMap(registerJumpChunk)[k] ==> (old(RegMap(registerJumpChunk)[k]) || (k != -1 && (c.branchBehavior != nil ? IsDest(c.branchBehavior, k) : k == c.returnID)))
 //@   ensures [C01:plain-return] (c.branchBehavior == nil && c.returnID == -1) ==> sb.pieces == snoc(old(sb.pieces), sprintf("\t%s\n", c.useEndTerminator ? "end" : "return"))
 //@   ensures [C01:plain-goto] (c.branchBehavior == nil && c.returnID != -1 && c.returnID != nextChunkID) ==> sb.pieces == snoc(old(sb.pieces), sprintf("\tgoto %s_%d\n", scriptName, c.returnID))
 //@ end
@@ -272,7 +276,7 @@ package emitter
 
 // the final chunk map has exactly the ids 0..len-1, every chunk is present and its branch behaviour is well-formed
 //@ pred DenseChunks(chunks map[int]*chunk) = (forall k int :: {indom(chunks, k)} indom(chunks, k) <==> (0 <= k && k < len(chunks)))
-//@   && (forall k int :: {indom(chunks, k)} indom(chunks, k) ==> (chunks[k] != nil && (chunks[k].branchBehavior != nil ==> BrWF(chunks[k].branchBehavior))))
+//@   && (forall k int :: {indom(chunks, k)} indom(chunks, k) ==> (chunks[k] != nil && chunks[k].id == k && (chunks[k].branchBehavior != nil ==> BrWF(chunks[k].branchBehavior))))
 
 //@ pred IsPerm(s seq[int], n int) = len(s) == n
 //@   && (forall a int :: {s[a]} (0 <= a && a < len(s)) ==> (0 <= s[a] && s[a] < n))
@@ -300,4 +304,59 @@ package emitter
 //@     invariant [C05:order-inv] forall a int, b int :: {chunkIDs[a], chunkIDs[b]} (0 <= a && a < b && b < len(chunkIDs)) ==> chunkIDs[a] != chunkIDs[b]
 //@     invariant [C05:order-inv] forall k int :: {indom(unvisited, k)} indom(unvisited, k) ==> (i <= k && k < len(chunks))
 //@     decreases len(chunks) - i
+//@ end
+
+// ---- rendering a script's chunks (C01, C04, C05, C16, C17, C20) ----
+
+// every destination mentioned by a chunk is the id of a chunk of the same script (or -1 = return)
+//@ pred IdOK(d int, n int) = -1 <= d && d < n
+//@ pred BranchDestsOK(b brancher, n int) = (typeis(b, jump) ==> IdOK(as(b, jump).destChunkID, n))
+//@   && (typeis(b, breakContext) ==> IdOK(as(b, breakContext).destChunkID, n))
+//@   && (typeis(b, leafExpressionBranch) ==> (IdOK(as(b, leafExpressionBranch).truthyDest.id, n) && IdOK(as(b, leafExpressionBranch).falseyReturnID, n)))
+//@   && (typeis(b, switchBranch) ==> (IdOK(as(b, switchBranch).destChunkID, n)
+//@         && (as(b, switchBranch).defaultCase != nil ==> IdOK(as(b, switchBranch).defaultCase.destChunkID, n))
+//@         && (forall j int :: {as(b, switchBranch).cases[j]} (0 <= j && j < len(as(b, switchBranch).cases)) ==> IdOK(as(b, switchBranch).cases[j].destChunkID, n))))
+//@ pred ChunkDestsOK(c *chunk, n int) = IdOK(c.returnID, n) && (c.branchBehavior != nil ==> BranchDestsOK(c.branchBehavior, n))
+//@ pred GraphWF(chunks map[int]*chunk) = DenseChunks(chunks)
+//@   && (forall k int :: {indom(chunks, k)} indom(chunks, k) ==> (PlainStmts(chunks[k]) && ChunkDestsOK(chunks[k], len(chunks))))
+
+//@ func (e *Emitter) renderChunks$1
+//@   implements RegFn
+//@   define RegMap(self) == jumpChunks
+//@ end
+
+//@ pred ChunkLabelName(id int, scriptName string) = (id == 0 ? scriptName : sprintf("%s_%d", scriptName, id))
+//@ pred NeedsLabel(id int, jumps map[int]bool) = id == 0 || jumps[id]
+//@ pred BodyDone(P seq[string], c *chunk, next int) = (len(P) >= 2 && P[len(P) - 1] == "\n" && IsTransfer(P[len(P) - 2]))
+//@   || (ChunkTail(c) == next && (next != -1 || (c.branchBehavior != nil && SwitchNoDefaultRet(c.branchBehavior))))
+
+//@ func (e *Emitter) renderChunks
+//@   requires GraphWF(chunks)
+//@   ensures [C20:render-err] result1 != nil ==> result0 == ""
+//@   loop 1
+//@     invariant [C17:keys] len(chunkIDs) == $n && (forall a int :: {chunkIDs[a]} (0 <= a && a < len(chunkIDs)) ==> has($visited, chunkIDs[a]))
+//@     invariant [C17:keys] forall a int, b int :: {chunkIDs[a], chunkIDs[b]} (0 <= a && a < b && b < len(chunkIDs)) ==> chunkIDs[a] != chunkIDs[b]
+//@     invariant [C17:keys] forall k int :: {has($visited, k)} has($visited, k) ==> indom(chunks, k)
+//@   loop 2
+//@     invariant [C04,C20:chunk-labels] forall k int :: {has($visited, k)} has($visited, k) ==> indom(chunkLabels, ChunkLabelName(k, scriptName))
+//@   loop 3
+//@     invariant [C05:order] IsPerm(chunkIDs, len(chunks)) && RegMap(registerJumpChunk) == jumpChunks
+//@     invariant [C04,C20:chunk-labels] forall k int :: {indom(chunks, k)} indom(chunks, k) ==> indom(chunkLabels, ChunkLabelName(k, scriptName))
+//@     invariant [C04:bodies] forall b int :: {chunkIDs[b]} (0 <= b && b < $i) ==> (indom(chunkBodies, chunkIDs[b]) && allocated(chunkBodies[chunkIDs[b]]))
+//@     invariant [C04:refs-registered] forall b int, k int :: {chunkBodies[chunkIDs[b]].pieces[k]} (0 <= b && b < $i && 0 <= k && k < len(chunkBodies[chunkIDs[b]].pieces) && RefOf(chunkBodies[chunkIDs[b]].pieces[k]) != -2)
+//@          ==> jumpChunks[RefOf(chunkBodies[chunkIDs[b]].pieces[k])]
+//@     invariant [C04,C05:reg-in-range] forall k int :: {indom(jumpChunks, k)} jumpChunks[k] ==> (0 <= k && k < len(chunks))
+//@     invariant [C01,C04,C05:fallthrough] forall b int :: {chunkIDs[b]} (0 <= b && b < $i) ==>
+//@          BodyDone(chunkBodies[chunkIDs[b]].pieces, chunks[chunkIDs[b]], (b < len(chunkIDs) - 1 ? chunkIDs[b+1] : -1))
+//@   loop 4
+//@     use LCountBase(chunkIDs, jumpChunks)
+//@     use LCountStep(chunkIDs, jumpChunks, $i)
+//@     invariant [C04,C05:layout] $i <= len(chunkIDs) && len(sb.pieces) == LCount(chunkIDs, jumpChunks, $i)
+//@     invariant [C04,C05:layout] forall b int :: {chunkIDs[b]} (0 <= b && b < $i) ==> LCount(chunkIDs, jumpChunks, b + 1) <= len(sb.pieces)
+//@     invariant [C04,C05:layout] forall b int :: {chunkIDs[b]} (0 <= b && b < $i) ==> (
+//@            LCount(chunkIDs, jumpChunks, b + 1) == LCount(chunkIDs, jumpChunks, b) + (NeedsLabel(chunkIDs[b], jumpChunks) ? 2 : 1)
+//@         && LCount(chunkIDs, jumpChunks, b) >= 0
+//@         && sb.pieces[LCount(chunkIDs, jumpChunks, b + 1) - 1] == bstr2(chunkBodies[chunkIDs[b]].pieces, chunkBodies[chunkIDs[b]].markers)
+//@         && (NeedsLabel(chunkIDs[b], jumpChunks) ==> sb.pieces[LCount(chunkIDs, jumpChunks, b)] ==
+//@               ((chunkIDs[b] == 0 && isGlobal) ? sprintf("%s::\n", scriptName) : sprintf("%s:\n", ChunkLabelName(chunkIDs[b], scriptName)))))
 //@ end
